@@ -140,7 +140,7 @@ def run_exhaust(case, need_ref=True):
         except common.InnerTimeout:
             return common.result_base(w, outcome="skip", reason="enumerator-too-slow"), None
         except W.HarnessCap:
-            if tr.enumerator is not None:
+            if tr.enumerator is not None and tr.instrumented:
                 K = rgworld.possible_keys_of(tr.enumerator, blk)
                 if K > 0 and w.rng.draws > 64 * K * (math.log(K) + 8) + 1000:
                     return common.result_base(w, outcome="violation", signature="C06/LIVENESS/does-not-stop",
@@ -198,7 +198,7 @@ def run_case(case):
         viols.append(("C06/LIVENESS/too-many-draws", "%d integer draws for %d candidate keys" % (w.rng.draws, K)))
     if K is not None and len(set(a["key"] for a in tr.attempts)) != K:
         viols.append(("C06/candidate-count", "possible_keys=%d but %d distinct keys were visited before RandomGen stopped" % (K, len(set(a["key"] for a in tr.attempts)))))
-    if tr.metrics is not None and tr.enumerator is not None:
+    if tr.metrics is not None and tr.enumerator is not None and tr.instrumented:
         e = tr.enumerator
         rejected = sum(1 for a in tr.attempts if a["accepted"] is False)
         if rejected == 0 and e.preamble_solution_count() == 1 and tr.rounds == 1 and tr.leftover == 0:
